@@ -409,6 +409,7 @@ fn run_probe(case: &Case, p: &Prepared, probe: &Probe, ctx: &mut Ctx) -> Option<
                                 ));
                             }
                         }
+                        ReadFaultKind::Once(_) => {}
                         ReadFaultKind::Interrupted => {
                             if !ok || pos != n || (what != "expected" && what != "any") {
                                 return Some(fail(
